@@ -556,6 +556,11 @@ func (p *Parser) evaluateValues(ctx context) (evaluatedValues, error) {
 		if returnValuesLength > 1 {
 			return evaluatedValues{}, p.expectedError(fmt.Sprintf(`only one return value from function "%s"`, funcName), exprToken)
 		}
+
+		// The same holds for every other call with multiple return values (a program call).
+		if call, ok := expr.(Call); ok && len(call.ReturnTypes()) > 1 {
+			return evaluatedValues{}, fmt.Errorf("a call with multiple return values cannot be part of a value list")
+		}
 	}
 	// A function call with multiple return values must be the only value.
 	if length := len(expressions); length > 1 {
